@@ -2751,7 +2751,10 @@ def orbital_equinox2equinox(epoch0, epoch, i0, arg0, lon0):
     else:
         a = sin(i0r) * sin(lon0r - pir)
         b = -sin(etar) * cos(i0r) + cos(etar) * sin(i0r) * cos(lon0r - pir)
-        i1 = asin(sqrt(a*a + b*b))
+        # Use the cosine formula: the arcsine loses the sense of retrograde
+        # orbits (inclinations above 90 degrees)
+        i1 = acos(cos(i0r) * cos(etar)
+                  + sin(i0r) * sin(etar) * cos(lon0r - pir))
         i1 = Angle(i1, radians=True)
         omegapsi = atan2(a, b)
         omegapsi = Angle(omegapsi, radians=True)
